@@ -83,7 +83,8 @@ def make_plain(shape, passthrough, transform, fallback, deprecated):
     if fallback:
         kw["fallback"] = FALLBACK
     al = (DeprecatedAlias if deprecated else Alias)(shape, **kw)
-    return type("P", (), {"al": al})
+    sibling = Alias(shape)  # a second, plain alias of the same target
+    return type("P", (), {"al": al, "sib": sibling})
 
 
 CONFIGS = [(sh, p, t, f, d) for sh in range(4) for p in (False, True) for t in (False, True) for f in (False, True) for d in (False, True)]
@@ -182,6 +183,12 @@ def make_plain_step(nops, deprecated, fsh=None, fp=None):
                     target = [None, False]
             # the target as seen directly must agree with the model (a local assignment never modifies the target)
             check(acc.has(o) == target[1] and (not target[1] or acc.get(o) is target[0] or acc.get(o) == target[0]), "a local assignment shadows the target without modifying it; passthrough forwards to the target", f"{tag}/target-state", lambda: f"{trace}: target {acc.has(o)} vs model {target!r}")
+            # a sibling alias of the same target keeps mirroring the target (overrides are per alias)
+            try:
+                sv = ("ok", o.sib)
+            except AttributeError:
+                sv = ("missing", None)
+            check((sv[0] == "ok") == target[1] and (not target[1] or sv[1] is target[0] or sv[1] == target[0]), "an aliased attribute reads as the current value of its target until IT is assigned locally", f"{tag}/sibling-alias-affected", lambda: f"{trace}: sibling reads {sv!r}, target {target!r}")
             if op in (0, 1, 2, 5, 6):
                 check(nwarn == (1 if deprecated else 0), "DeprecatedAlias warns on every access and changes nothing else; Alias does not warn", f"{tag}/warnings-{nwarn}", lambda: f"{trace}")
         return "ok"
